@@ -33,6 +33,19 @@ CLAIMS = {
         note=TB + "Dataclass equality of action objects is trusted.",
         technique="Lean 4 theorems by list induction over a regenerated inv table + differential correspondence",
         ref="§3 C02"),
+    "C04": dict(
+        text="Proved: (i) the purity traits, regenerated from the dialect definitions on every run, give CSE/DCE no licence to merge "
+             "or drop any statement that produces a device-visible event (C04_event_stmts_impure) and the statements the pipeline "
+             "needs to be removable are pure (C04_expected_pure); (ii) the route dimension 'spec injected at compile time vs supplied "
+             "at run time' preserves result, events and failures for every program (C04_spec_route, from the injection theorem). "
+             "Partial by nature: kirin's fold/inline/unroll/typeinfer/verify passes are not modelled; that they preserve events is "
+             "carried by the correspondence: generated programs x argument tuples x compilation routes (pairwise-covering subset of "
+             "the 128 option combinations in quick, all 128 in thorough), each compiled kernel executed by the event-logging "
+             "interpreter and compared with the Lean reference evaluator of the source (Model/Lang.lean) and so with every other route.",
+        note=TB + "Partial (see text). Known findings F4, F15, F16 have their root cause in kirin and are reported as KNOWN-FINDING, "
+                  "each only for the program feature / route that characterises it.",
+        technique="Lean 4 theorems (regenerated purity table, injection-route corollary) + route-matrix differential runs against a Lean reference evaluator",
+        ref="§3 C04"),
     "C05": dict(
         text="The three gen copies are modelled by one function applied to the shape of each copy, read from the source by ast "
              "on every run (where the spec comes from, which flag each isinstance branch sets, the permute_values operands, the "
